@@ -23,6 +23,8 @@ class Module:
             raise AnalysisError('module %s does not parse: %s' % (relpath, e))
         from .inline import inline_new_helpers, known_functions
         self.inlined = inline_new_helpers(self.tree, name, known_functions())
+        from .normalize import normalize_module
+        self.substituted = normalize_module(self.tree) if os.environ.get('VERIF_NO_NORMALIZE') != '1' else 0
         for node in ast.walk(self.tree):
             for child in ast.iter_child_nodes(node):
                 child._parent = node
